@@ -46,7 +46,9 @@ IndexDescent(n, path) ==
 
 \* all paths up to length n over a value range, in a fixed order
 RECURSIVE TvPaths(_, _)
-TvExt(ps, vals) == TxFlat([i \in 1..Len(ps) |-> [j \in 1..Len(vals) |-> Append(ps[i], vals[j])]])
+\* every path of ps extended by every value (index arithmetic instead of recursion: the lists get long)
+TvExt(ps, vals) == [k \in 1..(Len(ps) * Len(vals)) |->
+                      Append(ps[((k - 1) \div Len(vals)) + 1], vals[((k - 1) % Len(vals)) + 1])]
 TvPaths(n, vals) == IF n = 0 THEN <<<<>>>>
                     ELSE LET prev == TvPaths(n - 1, vals)
                              longest == SelectSeq(prev, LAMBDA p : Len(p) = n - 1)
